@@ -876,6 +876,9 @@ func (e *AnimEncoder) encodeSubFrame(currCanvas *image.NRGBA, durMS int) error {
 	}
 
 	subImgNone := extractSubImage(currCanvas, rectNone)
+	if blendNone == BlendAlpha && e.opts.Lossless {
+		clearUnchangedPixels(subImgNone, e.prevCanvas, currCanvas, rectNone)
+	}
 	bsNone, err := e.encodeFrame(subImgNone, e.opts.Lossless, e.opts.Quality)
 	if err != nil {
 		return fmt.Errorf("animation: encoding sub-frame (dispose-none): %w", err)
@@ -908,6 +911,9 @@ func (e *AnimEncoder) encodeSubFrame(currCanvas *image.NRGBA, durMS int) error {
 	}
 
 	subImgBG := extractSubImage(currCanvas, rectBG)
+	if blendBG == BlendAlpha && e.opts.Lossless {
+		clearUnchangedPixels(subImgBG, prevDisposedCanvas, currCanvas, rectBG)
+	}
 	bsBG, err = e.encodeFrame(subImgBG, e.opts.Lossless, e.opts.Quality)
 	if err != nil {
 		// If encoding the BG candidate fails, fall through with DISPOSE_NONE.
@@ -960,6 +966,22 @@ func (e *AnimEncoder) encodeSubFrame(currCanvas *image.NRGBA, durMS int) error {
 	e.prevMuxIndex = e.muxer.NumFrames() - 1
 	e.frameCount++
 	return nil
+}
+
+// clearUnchangedPixels makes every pixel of sub (the sub-image of curr at
+// rect) that is identical in prev and curr fully transparent. A blended
+// sub-frame is composited over prev: a transparent source pixel keeps the
+// previous pixel, whereas a non-opaque pixel left in place would be blended
+// onto itself and change (alpha 128 over 128 gives 192). This matches the C
+// libwebp IncreaseTransparency step that follows IsLosslessBlendingPossible.
+func clearUnchangedPixels(sub, prev, curr *image.NRGBA, rect image.Rectangle) {
+	for y := 0; y < rect.Dy(); y++ {
+		for x := 0; x < rect.Dx(); x++ {
+			if prev.NRGBAAt(rect.Min.X+x, rect.Min.Y+y) == curr.NRGBAAt(rect.Min.X+x, rect.Min.Y+y) {
+				sub.SetNRGBA(x, y, color.NRGBA{})
+			}
+		}
+	}
 }
 
 // isCanvasIdentical returns true if every pixel in a and b is identical.
